@@ -13,6 +13,7 @@ import (
 	"strings"
 	"sync"
 	"testing/synctest"
+	"time"
 
 	"github.com/goptics/varmq"
 )
@@ -218,6 +219,9 @@ func fidelity[T any](c *RunCtx, e *Env, variant int, vals []T, ids []string, pri
 		cuts.Pending = append(cuts.Pending, it.Seq)
 	}
 	cons := prod.Recover(e, cuts)
+	if distributed {
+		cons.SubDelay = 20 * time.Microsecond // the consumer binds to a backlog and Subscribe takes a round trip
+	}
 	var mu sync.Mutex
 	var seen []seenJob
 	cw := varmq.NewWorker(func(j varmq.Job[T]) {
@@ -394,7 +398,7 @@ type badCfg struct {
 	Paced bool
 }
 
-var badKinds = []string{"valid", "truncated", "not-json", "wrong-id-type", "unknown-status", "foreign-payload", "non-bytes-int", "non-bytes-string", "empty", "json-array"}
+var badKinds = []string{"valid", "truncated", "not-json", "wrong-id-type", "unknown-status", "foreign-payload", "non-bytes-int", "non-bytes-string", "empty", "json-array", "trailing-garbage", "two-envelopes-glued"}
 
 func (b badCfg) String() string {
 	var s []string
@@ -424,8 +428,13 @@ func badEntry(kind, i int) any {
 		return "a string item"
 	case 8:
 		return []byte{}
-	default:
+	case 9:
 		return []byte(`[1,2,3]`)
+	case 10:
+		// a complete envelope followed by more bytes is not a valid entry
+		return []byte(fmt.Sprintf(`{"id":"ghost%d","status":"Created","data":%d} trailing`, i, 500000+i))
+	default:
+		return []byte(fmt.Sprintf(`{"id":"ghostA%d","status":"Created","data":%d}{"id":"ghostB%d","status":"Created","data":%d}`, i, 600000+i, i, 700000+i))
 	}
 }
 
